@@ -64,6 +64,46 @@ def build(cid, cfg, race=False):
     return out
 
 
+# Data races of the UNCHANGED tree that break no listed property (DESIGN 3.3):
+# pairs of innermost repository functions of the two racing accesses.
+RACE_BASELINE = {
+    # MemStorage.GetRouter stamps UsedAt on the stored record while holding only the read lock.
+    ("storage.(*MemStorage).GetRouter", "storage.(*MemStorage).GetRouter"),
+}
+
+
+def parse_races(logpath):
+    """returns [(key, text)] for every data race report in the race-detector log."""
+    try:
+        text = open(logpath, errors="replace").read()
+    except OSError:
+        return []
+    out = []
+    for block in text.split("=================="):
+        if "WARNING: DATA RACE" not in block:
+            continue
+        tops = []
+        lines = block.splitlines()
+        for i, l in enumerate(lines):
+            ls = l.strip()
+            if ls.startswith(("Write at", "Read at", "Previous write at", "Previous read at", "Atomic write at", "Atomic read at", "Previous atomic")):
+                # innermost frame that belongs to the repository (not the shims).
+                top = None
+                for j in range(i + 1, len(lines)):
+                    f = lines[j].strip()
+                    if not f:
+                        break
+                    if f.startswith("github.com/mycoria/mycoria/") and "/zz_verif/" not in f:
+                        top = f.split("github.com/mycoria/mycoria/", 1)[1].rstrip("()")
+                        break
+                tops.append(top or "(outside the repository)")
+        if len(tops) < 2:
+            tops += ["?"] * (2 - len(tops))
+        pair = tuple(sorted(tops[:2]))
+        out.append((pair, block.strip()[:3000]))
+    return out
+
+
 def load_known():
     known, fixed = [], []
     path = os.path.join(ROOT, "known_findings.jsonl")
@@ -190,7 +230,17 @@ def main():
                 crashed.append((s, rc, log.name))
                 continue
             r = json.load(open(out))
-            if rc != 0:
+            if race_binary and out.endswith(".race.json"):
+                # the race detector fails the test on ANY report; judge the reports themselves.
+                seen_pairs = set()
+                for pair, text in parse_races(log.name):
+                    if pair in RACE_BASELINE or pair in seen_pairs:
+                        continue
+                    seen_pairs.add(pair)
+                    r["violations"].append({"key": "data-race/%s|%s" % pair, "detail": "the race detector reports unsynchronised concurrent accesses in %s and %s when the thread bodies of the interleaving tier run on free goroutines:\n%s" % (pair[0], pair[1], text), "replay": log.name})
+                if rc != 0 and "DATA RACE" not in open(log.name, errors="replace").read():
+                    crashed.append((s, rc, log.name))
+            elif rc != 0:
                 crashed.append((s, rc, log.name))
             if merged is None:
                 merged = r
